@@ -249,6 +249,7 @@ impl Check for C06 {
         let mut cfg = IterCfg::default();
         cfg.max_size = MaxSz::Limit(1 << 20);
         cfg.capacity = io::gen_capacity(&mut rng, bytes.len());
+        crate::harness::gen_cfg_history(&mut rng, &mut cfg);
         let script = io::gen_rscript(&mut rng, bytes.len(), &[]);
         ReadCase { spec, input: Arc::new(bytes), cfg, script, driver: Driver::UntilEnd { extra: 0 }, class }
     }
